@@ -40,7 +40,10 @@ func genC02Race(t *rapid.T) *Scenario {
 			set.Previous = append(set.Previous, j)
 		}
 		sc.Steps = append(sc.Steps, Step{Op: "createSet", Set: &set})
-		if i < 2 {
+		// the newest revision is either still taking over when the teardown starts, or settled as well: then the teardown
+		// of a co-owner (which also strips the cache label) is followed by passes of an older, still active revision that
+		// no longer finds the object in its cache
+		if i < 2 || rapid.Bool().Draw(t, "settleNewest") {
 			sc.Steps = append(sc.Steps, Step{Op: "quiesce"})
 		}
 	}
